@@ -47,7 +47,7 @@ _leaf = st.sampled_from([{"t": "f", "c": "hello\nworld\n"}, {"t": "f", "c": "#!/
 
 
 def examples(tier):
-    return 280 if tier == "quick" else 4000
+    return 1400 if tier == "quick" else 14000
 
 
 @st.composite
